@@ -3,7 +3,8 @@
 From Coq Require Import ZArith NArith List Bool Lia.
 Require Import Webob.Lib.Val Webob.Lib.PyStr Webob.Lib.C12_PyInt Webob.Model.C12_Headers
                Webob.Model.C12_ByteRange Webob.Model.C12_Dates Webob.Model.C12_AuthCT Webob.Model.C12_Attrs Webob.Proofs.C12_pyint
-               Webob.Proofs.C12_headers Webob.Proofs.C12_byterange Webob.Proofs.C12_dates.
+               Webob.Proofs.C12_headers Webob.Proofs.C12_byterange Webob.Proofs.C12_dates Webob.Proofs.C12_cachecontrol
+               Webob.Proofs.C12_authct.
 Import ListNotations.
 
 Lemma conv_auth_total : conv_total conv_auth.
@@ -199,4 +200,37 @@ Proof.
   destruct (req_set (conv_date now parse_imf mk) key v env) as [env' e].
   destruct R as [R1 [R2 R3]]. split; [exact R1|]. split; [|exact R3].
   exists text. auto.
+Qed.
+
+(* credentials given as (scheme, dict): one of the schemes whose parameters webob parses (not Basic), distinct
+   lower-case parameter names, values free of double quote, CR and LF *)
+Lemma dict_scheme_no_crlf scheme : dict_scheme scheme -> has_crlf scheme = false.
+Proof.
+  intros [Hk _]. apply existsb_exists in Hk. destruct Hk as [x [Hx E]]. apply str_eqb_eq in E. subst x.
+  cbn in Hx. repeat (destruct Hx as [<-|Hx]; [reflexivity|]). contradiction.
+Qed.
+
+Lemma roundtrip_auth_dict header scheme l hl :
+  dict_scheme scheme -> Forall ok_aparam l -> NoDup (map fst l) ->
+  let '(hl', e) := resp_set conv_auth header (PAuth scheme l) hl in
+  e = None /\ hg_get (lower header) hl' = Some (scheme ++ [32%N] ++ ser_params l) /\
+  resp_get conv_auth header hl' = Ok (VList [VStr auth_tag; VStr scheme; dict_val l]).
+Proof.
+  intros Hs Hl Hnd. apply resp_set_get.
+  - discriminate.
+  - reflexivity.
+  - rewrite !has_crlf_app, (dict_scheme_no_crlf _ Hs), (ser_params_no_crlf l Hl). reflexivity.
+  - apply parse_auth_dict; assumption.
+Qed.
+
+Lemma roundtrip_auth_dict_request dflt key scheme l env :
+  dict_scheme scheme -> Forall ok_aparam l -> NoDup (map fst l) ->
+  let '(env', e) := req_set conv_auth key (PAuth scheme l) env in
+  e = None /\ env_get key env' = Some (scheme ++ [32%N] ++ ser_params l) /\
+  req_get conv_auth dflt key env' = Ok (VList [VStr auth_tag; VStr scheme; dict_val l]).
+Proof.
+  intros Hs Hl Hnd. apply req_set_get.
+  - discriminate.
+  - reflexivity.
+  - apply parse_auth_dict; assumption.
 Qed.
